@@ -862,6 +862,10 @@ class Exec:
             return V(T.TD, [a.t + b.t if isinstance(op, ast.Add) else a.t - b.t])
         if a.ty is T.Date and b.ty is T.Date and isinstance(op, ast.Sub):
             return V(T.TD, [to_real((a.t - b.t) * 86400)])
+        if a.ty is T.Date and b.ty is T.TD and isinstance(op, (ast.Add, ast.Sub)):
+            # date +/- timedelta: only the whole days of the timedelta count
+            dd = real_floor(b.t) / 86400
+            return V(T.Date, [a.t + dd if isinstance(op, ast.Add) else a.t - dd])
         if isinstance(a.ty, T.Opt) or isinstance(b.ty, T.Opt) or a.ty is T.NoneT or b.ty is T.NoneT:
             for x in (a, b):
                 if isinstance(x.ty, T.Opt) or x.ty is T.NoneT:
